@@ -224,6 +224,20 @@ theorem paramText_ok (name : String) (pt : Ty) (vararg : Bool) (hn : IdentOK nam
       rw [this, lastWordL_word _ _ hn.1, String.ofList_toList]
     rw [e2]; exact hname
 
+theorem VOK.st {v : St → Node → St × Text} (hv : VOK v) {s : St} {n : Node} (hs : StOK s) (hn : NodeOK n) :
+    StOK (v s n).1 := (hv s n hs hn).1
+theorem VOK.tx {v : St → Node → St × Text} (hv : VOK v) {s : St} {n : Node} (hs : StOK s) (hn : NodeOK n) :
+    Neutral (v s n).2 := (hv s n hs hn).2.1
+
+/-- discharge `StOK` of a state built from visits and field updates -/
+macro "st_ok" : tactic => `(tactic| iterate 16 (first
+  | done
+  | assumption
+  | exact stOK_init
+  | refine VOK.st ‹VOK _› ?_ (by assumption)
+  | refine (visitL_ok ‹VOK _› _ _ ?_ (by assumption)).1
+  | refine StOK.with_eq ?_ rfl rfl))
+
 set_option linter.unusedSectionVars false
 set_option linter.unusedSimpArgs false
 
@@ -261,7 +275,7 @@ theorem ok_consts (n : Node)
     have h1 := hn.neutral
     have hc : Neutral (intCast t lit) := by
       unfold intCast
-      split_ifs <;> fin_neutral [h1.eq]
+      (repeat' split) <;> fin_neutral [h1.eq]
     simp only [visitNode]
     split
     · exact ⟨hst, by fin_neutral [h1.eq]⟩
@@ -271,7 +285,7 @@ theorem ok_consts (n : Node)
     have h1 := hn.neutral
     have hc : Neutral (realCast t lit) := by
       unfold realCast
-      split_ifs <;> fin_neutral [h1.eq]
+      (repeat' split) <;> fin_neutral [h1.eq]
     simp only [visitNode]
     split
     · exact ⟨hst, by fin_neutral [h1.eq]⟩
@@ -291,7 +305,7 @@ theorem ok_consts (n : Node)
     have h1 := hn.neutral
     simp only [visitNode]
     exact ⟨hst, by fin_neutral [h1.eq]⟩
-  case variable name =>
+  case «variable» name =>
     simp only [NodeOK] at hn
     have h1 := hn.neutral
     simp only [visitNode]
@@ -320,6 +334,188 @@ theorem ok_decl_leaves (n : Node)
     exact ⟨hst, this.1, fun _ => this.2⟩
 
 
+theorem ok_callArg (ex : Node) (nm : Option String) (hn : NodeOK (.callArg ex nm)) :
+    StOK (visitNode e v st (.callArg ex nm)).1 ∧ Neutral (visitNode e v st (.callArg ex nm)).2 := by
+  simp only [NodeOK] at hn
+  simp only [visitNode]
+  have h := hv { st with ident := 0 } ex (hst.with_eq rfl rfl) hn
+  generalize v { st with ident := 0 } ex = p at h
+  obtain ⟨s1, r⟩ := p
+  exact ⟨h.1.with_eq rfl rfl, h.2.1⟩
+
+theorem ok_varDecl (name : String) (ex : Node) (fin : Bool) (vt inf : Option Ty)
+    (hn : NodeOK (.varDecl name ex fin vt inf)) :
+    StOK (visitNode e v st (.varDecl name ex fin vt inf)).1 ∧ Neutral (visitNode e v st (.varDecl name ex fin vt inf)).2 := by
+  simp only [NodeOK] at hn
+  obtain ⟨hname, hex, hinf⟩ := hn
+  simp only [visitNode]
+  have h := hv { st with castNumber := true } ex (hst.with_eq rfl rfl) hex
+  generalize v { st with castNumber := true } ex = p at h
+  obtain ⟨s1, r⟩ := p
+  simp only at h ⊢
+  refine ⟨h.1.with_eq rfl rfl, ?_⟩
+  have h1 := hname.neutral
+  have h2 := neutral_typeNameO inf hinf false false
+  have h3 := h.2.1
+  have h4 : Neutral (if (s1.ns != ["global"]) = true then mainPrefix e s1 "vars" name else "") := by
+    split
+    · exact BrFree.neutral (brFree_mainPrefix _ _ _ _)
+    · exact neutral_empty
+  generalize (if (s1.ns != ["global"]) = true then mainPrefix e s1 "vars" name else "") = mp at h4
+  cases fin <;> fin_neutral [h1.eq, h2.eq, h3.eq, h4.eq]
+
+theorem ok_binop (k : String) (l r : Node) (op : String) (hn : NodeOK (.binop k l r op)) :
+    StOK (visitNode e v st (.binop k l r op)).1 ∧ Neutral (visitNode e v st (.binop k l r op)).2 := by
+  simp only [NodeOK] at hn
+  obtain ⟨hl, hr, hop⟩ := hn
+  simp only [visitNode]
+  have h := hv { st with ident := 0 } l (hst.with_eq rfl rfl) hl
+  generalize v { st with ident := 0 } l = p at h
+  obtain ⟨s1, ra⟩ := p
+  simp only at h ⊢
+  have h' := hv s1 r h.1 hr
+  generalize v s1 r = q at h'
+  obtain ⟨s2, rb⟩ := q
+  simp only at h' ⊢
+  refine ⟨h'.1.with_eq rfl rfl, ?_⟩
+  have h1 := h.2.1
+  have h2 := h'.2.1
+  have h3 := hop.neutral
+  fin_neutral [h1.eq, h2.eq, h3.eq]
+
+theorem ok_fieldAccess (ex : Node) (field : String) (hn : NodeOK (.fieldAccess ex field)) :
+    StOK (visitNode e v st (.fieldAccess ex field)).1 ∧ Neutral (visitNode e v st (.fieldAccess ex field)).2 := by
+  simp only [NodeOK] at hn
+  obtain ⟨hex, hf⟩ := hn
+  simp only [visitNode]
+  have h := hv { st with ident := 0 } ex (hst.with_eq rfl rfl) hex
+  generalize v { st with ident := 0 } ex = p at h
+  obtain ⟨s1, r⟩ := p
+  simp only at h ⊢
+  refine ⟨h.1.with_eq rfl rfl, ?_⟩
+  have h1 := h.2.1
+  have h2 := hf.neutral
+  have h3 : Neutral (wrapBottom ex r) := by
+    unfold wrapBottom
+    split
+    · exact neutral_paren h1
+    · exact h1
+  generalize wrapBottom ex r = w at h3
+  fin_neutral [h2.eq, h3.eq]
+
+theorem ok_newE (t : Ty) (args : List Node) (ci : Bool) (hn : NodeOK (.newE t args ci)) :
+    StOK (visitNode e v st (.newE t args ci)).1 ∧ Neutral (visitNode e v st (.newE t args ci)).2 := by
+  simp only [NodeOK] at hn
+  obtain ⟨ht, hargs⟩ := hn
+  simp only [visitNode]
+  have h := visitL_ok hv args { st with ident := 0, castNumber := true } (hst.with_eq rfl rfl) hargs
+  generalize visitL v { st with ident := 0, castNumber := true } args = p at h
+  obtain ⟨s1, rs⟩ := p
+  simp only at h ⊢
+  refine ⟨h.1.with_eq rfl rfl, ?_⟩
+  have hj := neutral_join (sep := ", ") (by decide) h.2
+  have hcls : Neutral (if ci = true then tyName t ++ "<>" else typeName t false false) := by
+    split
+    · exact neutral_append (BrFree.neutral ht.tyName) (BrFree.neutral (by decide))
+    · exact ht.name _ _
+  generalize (if ci = true then tyName t ++ "<>" else typeName t false false) = cls at hcls
+  generalize join ", " rs = j at hj
+  fin_neutral [hj.eq, hcls.eq]
+
+theorem ok_isE (ex : Node) (t : Ty) (isNot : Bool) (hn : NodeOK (.isE ex t isNot)) :
+    StOK (visitNode e v st (.isE ex t isNot)).1 ∧ Neutral (visitNode e v st (.isE ex t isNot)).2 := by
+  simp only [NodeOK] at hn
+  obtain ⟨hex, ht⟩ := hn
+  simp only [visitNode]
+  have h := hv { st with ident := 0 } ex (hst.with_eq rfl rfl) hex
+  generalize v { st with ident := 0 } ex = p at h
+  obtain ⟨s1, r⟩ := p
+  simp only at h ⊢
+  have h1 := h.2.1
+  have h2 := ht.getName
+  cases hvn : varName? ex with
+  | none =>
+    simp only
+    refine ⟨h.1.with_eq rfl rfl, ?_⟩
+    cases isNot <;> fin_neutral [h1.eq, h2.eq]
+  | some nm =>
+    simp only
+    refine ⟨h.1.with_eq rfl rfl, ?_⟩
+    have h3 : Neutral nm := by
+      cases ex <;> simp only [varName?] at hvn <;> try cases hvn
+      simp only [NodeOK] at hex
+      exact hex.neutral
+    cases isNot <;> fin_neutral [h1.eq, h2.eq, h3.eq]
+
+omit hv hst in
+theorem neutral_recvExpr (rcv : Node) (r : Text) (h1 : Neutral r) :
+    Neutral (if r != "" then (if isBottomC rcv then "(" ++ r ++ ")." else r ++ ".") else "") := by
+  split
+  · split
+    · fin_neutral [h1.eq]
+    · fin_neutral [h1.eq]
+  · exact neutral_empty
+
+theorem ok_assign (name : String) (ex : Node) (recv : Option Node) (hn : NodeOK (.assign name ex recv)) :
+    StOK (visitNode e v st (.assign name ex recv)).1 ∧ Neutral (visitNode e v st (.assign name ex recv)).2 := by
+  have hn' : BrFree name ∧ NodeOK ex ∧ NodesOK (optList recv) := by
+    cases recv <;> simp only [NodeOK] at hn <;> simp only [optList, NodesOK] <;> simp_all
+  obtain ⟨hname, hex, hro⟩ := hn'
+  simp only [visitNode]
+  have h := visitL_ok hv (optList recv) { st with ident := 0, castNumber := true } (hst.with_eq rfl rfl) hro
+  generalize visitL v { st with ident := 0, castNumber := true } (optList recv) = p at h
+  obtain ⟨s1, rr⟩ := p
+  simp only at h ⊢
+  have h' := hv s1 ex h.1 hex
+  generalize v s1 ex = q at h'
+  obtain ⟨s2, re⟩ := q
+  simp only at h' ⊢
+  refine ⟨h'.1.with_eq rfl rfl, ?_⟩
+  have h1 := hname.neutral
+  have h2 := h'.2.1
+  cases recv with
+  | none => fin_neutral [h1.eq, h2.eq]
+  | some rcv =>
+    cases rr with
+    | nil => fin_neutral [h1.eq, h2.eq]
+    | cons r tl =>
+      have h3 := neutral_recvExpr rcv r (h.2 r (by simp))
+      simp only
+      generalize (if r != "" then (if isBottomC rcv then "(" ++ r ++ ")." else r ++ ".") else "") = rx at h3
+      fin_neutral [h1.eq, h2.eq, h3.eq]
+
 end cases
+
+theorem neutral_condText {a rc rt rf z : String} (ha : BrFree a) (hz : BrFree z) (h1 : Neutral rc)
+    (h2 : Neutral rt) (h3 : Neutral rf) :
+    Neutral (a ++ "((" ++ lstrip rc ++ ") ?\n" ++ rt ++ " : \n " ++ rf ++ ")" ++ z) := by
+  have ha := ha.neutral; have hz := hz.neutral
+  fin_neutral [ha.eq, hz.eq, h1.eq, h2.eq, h3.eq]
+
+theorem ok_cond (e : Env) {v : St → Node → St × Text} (hv : VOK v) (st : St) (hst : StOK st)
+    (c tb fb : Node) (ty : Option Ty) (hn : NodeOK (.cond c tb fb ty)) :
+    StOK (visitNode e v st (.cond c tb fb ty)).1 ∧ Neutral (visitNode e v st (.cond c tb fb ty)).2 := by
+  simp only [NodeOK] at hn
+  obtain ⟨hc, ht, hf⟩ := hn
+  simp only [visitNode]
+  have h0 : StOK { st with insideIs := true, ident := st.ident + 2 } := hst.with_eq rfl rfl
+  have h := hv _ c h0 hc
+  generalize v { st with insideIs := true, ident := st.ident + 2 } c = p at h
+  obtain ⟨s1, rc⟩ := p
+  simp only at h ⊢
+  have h1 := h.2.1
+  have hs1 := h.1
+  split
+  · next lexpr rexpr isNot =>
+    cases isNot
+    · simp only [Bool.not_false, if_true]
+      refine ⟨by st_ok, neutral_condText (brFree_identOld _ _) (brFree_semi _) h1 (hv.tx ?_ ht) (hv.tx ?_ hf)⟩
+      all_goals st_ok
+    · simp only [Bool.not_true, Bool.false_eq_true, if_false]
+      refine ⟨by st_ok, neutral_condText (brFree_identOld _ _) (brFree_semi _) h1 (hv.tx ?_ ht) (hv.tx ?_ hf)⟩
+      all_goals st_ok
+  · simp only
+    refine ⟨by st_ok, neutral_condText (brFree_identOld _ _) (brFree_semi _) h1 (hv.tx ?_ ht) (hv.tx ?_ hf)⟩
+    all_goals st_ok
 
 end Heph.TransJava
